@@ -220,8 +220,22 @@ impl Gen {
             7..=9 => sym(CONST_SYMS[self.rng.below(CONST_SYMS.len() as u64) as usize]),
             10 | 11 => self.atom(),
             12 if self.w() => {
+                // vector templates of every shape (all rejected since fix ff58560; a relaxed rejection must still
+                // instantiate what it accepts): a variable directly inside, inside a list inside, inside a NESTED
+                // vector, an ellipsis group inside a nested vector, and constant vectors
                 let a = self.pick_var(0).unwrap_or(int(7));
-                Cell::Vector(vec![a])
+                match self.rng.below(6) {
+                    0 => Cell::Vector(vec![a]),
+                    1 => Cell::Vector(vec![int(0), Cell::Vector(vec![a, int(1)])]),
+                    2 => Cell::Vector(vec![int(0), list(vec![sym("k"), Cell::Vector(vec![a])])]),
+                    3 => {
+                        let e = self.pick_var(1).unwrap_or(sym("x"));
+                        let ell = sym(&self.ell.clone());
+                        Cell::Vector(vec![sym("h"), Cell::Vector(vec![e, ell])])
+                    }
+                    4 => Cell::Vector(vec![int(1), Cell::Vector(vec![int(2), sym("k")])]),
+                    _ => Cell::Vector(vec![list(vec![a])]),
+                }
             }
             _ => {
                 if depth < 3 {
